@@ -37,7 +37,7 @@ class C17(Check):
         return st.tuples(base, cfg).map(lambda t: dict(t[0], rule_configs=t[1]) if t[1] else t[0])
 
     def examples(self, tier):
-        return 45 if tier == "quick" else 800
+        return 30 if tier == "quick" else 800
 
     def budget_s(self, tier):
         return 400.0 if tier == "quick" else 1700.0
